@@ -489,6 +489,15 @@ def run(ctx):
     others += file_cases(ctx, vol(1200, 40000), seedfiles)
     ctx.rng.shuffle(others)
     batches.append(('advanced', 'cga', others))
+    only_arms = os.environ.get('VERIF_C01_ARMS')            # development aid (defect hunting): 'T', 'O' (other arms), 'D' or a combination
+    if only_arms:
+        batches = ([b for b in batches[:-1] if 'T' in only_arms]) + ([batches[-1]] if 'O' in only_arms else [])
+        scale_o = float(os.environ.get('VERIF_C01_SCALE_O', '1'))
+        if 'O' in only_arms and scale_o != 1:
+            n = int(scale_o)
+            big = (grammar_cases(ctx, cat, 900 * n, 900 * n) + corpus_cases(ctx, 700 * n) + soup_cases(ctx, 1200 * n)
+                   + file_cases(ctx, 1200 * n, seedfiles))
+            batches[-1] = ('advanced', 'cga', big)
     procs = int(os.environ.get('VERIF_C01_PROCS', ctx.pick(8, 12)))
     t0 = time.time()
     allcases, allres = [], []
@@ -501,7 +510,7 @@ def run(ctx):
         allcases += cases
         allres += res
     # 3. default-configuration arm (its own child process)
-    dres = default_arm(ctx, cat)
+    dres = default_arm(ctx, cat) if (not only_arms or 'D' in only_arms) else []
     ctx.cov['impl_wall_s'] = round(time.time() - t0, 1)
     # 4. events -> TLC
     events, owners = [], []
@@ -572,7 +581,7 @@ def run(ctx):
             ctx.reject('C01 %s: %r in state %s -> kind=%s post=%s' % (clause, c.get('text'), c.get('st'), r_['kind'], r_.get('post')),
                        key={'clause': clause, 'item': c.get('name', ''), 'mode': (c.get('st') or [''])[0]},
                        data={'case': c, 'result': r_})
-    if kinds.get('ok', 0) < 1000 or kinds.get('err', 0) < 1000:
+    if not only_arms and (kinds.get('ok', 0) < 1000 or kinds.get('err', 0) < 1000):
         raise core.MachineryError('vacuous: outcome kinds %r' % kinds)
     if len(hangs) > max(50, len(events) // 100):
         raise core.MachineryError('too many cases lost to the watchdog: %d' % len(hangs))
